@@ -1,5 +1,75 @@
-import PatchModel.Spec.Script
+/-
+  C18 / C04 (exit status) / C09 (driver model).
+-/
+import PatchModel.Model.Driver
+import PatchModel.Lemmas.DriverFacts
 namespace PatchModel.C18
-/-- placeholder until the driver model's theorems are in (see DESIGN.md section 5/C18) -/
-theorem placeholder : True := trivial
+open PatchModel PatchModel.DriverFacts
+
+/-- backup name: prefix + path + suffix per -B / -z, ".orig" appended when neither is given -/
+theorem backupName_spec (o : Options) (p : Bytes) :
+    (o.backupPrefix = [] → o.backupSuffix = [] → backupName o p = p ++ str ".orig") ∧
+    (o.backupPrefix ≠ [] ∨ o.backupSuffix ≠ [] → backupName o p = o.backupPrefix ++ p ++ o.backupSuffix) := by
+  unfold backupName
+  cases h1 : o.backupPrefix <;> cases h2 : o.backupSuffix <;> simp
+
+/-- the first backup of an existing regular file moves its bytes and mode to the backup name; the target path is then free -/
+theorem makeBackupFor_existing (o : Options) (p : Bytes) (s : DState) (b : Bytes) (m : Nat)
+    (hnot : ¬ s.backedUp.contains (backupName o p) = true)
+    (hfile : s.fs.lookup (absPath s p) = some (.file b m))
+    (hdir : s.fs.dirExists (parentOf (absPath s (backupName o p))) = true)
+    (hne : absPath s (backupName o p) ≠ absPath s p)
+    (hf : s.faultAt = none) :
+    ∃ s', (makeBackupFor o p).run s = (.ok (), s') ∧
+      s'.fs.lookup (absPath s (backupName o p)) = some (.file b m) ∧
+      s'.fs.lookup (absPath s p) = none ∧
+      s'.backedUp.contains (backupName o p) = true ∧
+      s'.trace = s.trace ++ [FsOp.rename (absPath s p) (absPath s (backupName o p))] := by
+  have hst := Fs.stat_of_file hfile
+  have happ : s.fs.apply (.rename (absPath s p) (absPath s (backupName o p))) =
+      .ok ((s.fs.erase (absPath s p)).set (absPath s (backupName o p)) (.file b m)) := by
+    simp only [Fs.apply, hfile, hdir]; rfl
+  refine ⟨{ s with backedUp := s.backedUp ++ [backupName o p],
+                   fs := (s.fs.erase (absPath s p)).set (absPath s (backupName o p)) (.file b m),
+                   trace := s.trace ++ [FsOp.rename (absPath s p) (absPath s (backupName o p))],
+                   opCount := s.opCount + 1 }, ?_, ?_, ?_, ?_, ?_⟩
+  · rw [makeBackupFor_run, if_neg hnot, hst, if_pos (by rfl)]
+    exact doOp_run_ok hf happ
+  · exact Fs.lookup_set_self _ _ _
+  · show (Fs.set _ _ _).lookup _ = none
+    rw [Fs.lookup_set_ne _ _ _ _ (Ne.symm hne), Fs.lookup_erase_self]
+  · simp
+  · rfl
+
+set_option linter.unusedVariables false in
+/-- a target that does not exist yields an empty backup file -/
+theorem makeBackupFor_absent (o : Options) (p : Bytes) (s : DState)
+    (hnot : ¬ s.backedUp.contains (backupName o p) = true)
+    (habs : s.fs.stat (absPath s p) = none)
+    (hnone : s.fs.stat (absPath s (backupName o p)) = none) (hnl : s.fs.lookup (absPath s (backupName o p)) = none)
+    (hdir : s.fs.dirExists (parentOf (absPath s (backupName o p))) = true)
+    (hf : s.faultAt = none) :
+    ∃ s' m, (makeBackupFor o p).run s = (.ok (), s') ∧
+      s'.fs.lookup (absPath s (backupName o p)) = some (.file [] m) := by
+  have happ : s.fs.apply (.creat (absPath s (backupName o p))) =
+      .ok (s.fs.set (absPath s (backupName o p)) (.file [] (0o666 - (0o666 &&& s.fs.umask)))) := by
+    simp only [Fs.apply, hnone, hdir]; rfl
+  refine ⟨{ s with backedUp := s.backedUp ++ [backupName o p],
+                   fs := s.fs.set (absPath s (backupName o p)) (.file [] (0o666 - (0o666 &&& s.fs.umask))),
+                   trace := s.trace ++ [FsOp.creat (absPath s (backupName o p))],
+                   opCount := s.opCount + 1 }, (0o666 - (0o666 &&& s.fs.umask)), ?_, ?_⟩
+  · rw [makeBackupFor_run, if_neg hnot, habs, if_neg (by simp)]
+    exact doOp_run_ok hf happ
+  · exact Fs.lookup_set_self _ _ _
+
+/-- several patches for one file: only the first backup is made — a later call for the same backup name does nothing at all -/
+theorem makeBackupFor_again (o : Options) (p : Bytes) (s : DState) (hin : s.backedUp.contains (backupName o p) = true) :
+    (makeBackupFor o p).run s = (.ok (), s) := by
+  rw [makeBackupFor_run, if_pos hin]
+
 end PatchModel.C18
+
+#print axioms PatchModel.C18.backupName_spec
+#print axioms PatchModel.C18.makeBackupFor_existing
+#print axioms PatchModel.C18.makeBackupFor_absent
+#print axioms PatchModel.C18.makeBackupFor_again
